@@ -255,8 +255,21 @@ def _global_memo_sites(mod):
         for n in ast.walk(fn):
             if isinstance(n, ast.Assign):
                 for t in n.targets:
-                    if isinstance(t, ast.Name) and t.id in gl and from_params(n.value, set()): out.append((fn, t.id, n))
+                    if isinstance(t, ast.Name) and t.id in gl and from_params(n.value, set()) and _read_in_functions(mod, t.id): out.append((fn, t.id, n))
     return out
+
+
+def _read_in_functions(mod, name):
+    """the module-level name is read inside some function other than as an argument of a logging / print call (a slot that is only written is a
+    diagnostic, not a memo)."""
+    for fn in [n for n in ast.walk(mod) if isinstance(n, ast.FunctionDef)]:
+        logged = set()
+        for c in ast.walk(fn):
+            if isinstance(c, ast.Call) and (ast.unparse(c.func).split(".")[0] in ("logging", "logger", "print", "warnings")):
+                for x in ast.walk(c): logged.add(id(x))
+        for x in ast.walk(fn):
+            if isinstance(x, ast.Name) and x.id == name and isinstance(x.ctx, ast.Load) and id(x) not in logged: return True
+    return False
 
 
 def check_no_global_memo(ctx, rule="R-no-global-memo-of-arguments", files=("speckit/analysis.py", "speckit/core.py", "speckit/core_cuda.py", "speckit/schedulers.py",
